@@ -118,11 +118,6 @@ theorem sem_seq_nil (t : Tables) (d : Nat) : Sem t (.seq []) (d + 1) mNil := by
   · intro s pos caps k k' h
     exact h s pos caps (Nat.le_refl _)
 
-/-- every matcher built here hands its continuation a suffix: the string never grows -/
-def Shrinks (m : M) : Prop :=
-  ∀ s pos caps k k', (∀ s' p' c', s'.length ≤ s.length → k s' p' c' = k' s' p' c') →
-    m s pos caps k = m s pos caps k'
-
 theorem sem_seq_cons {t : Tables} {a : Re} {rest : List Re} {d : Nat} {ma mr : M}
     (ha : Sem t a d ma) (hr : Sem t (.seq rest) d mr) : Sem t (.seq (a :: rest)) (d + 1) (mSeq ma mr) := by
   refine ⟨?_, ?_⟩
